@@ -145,7 +145,10 @@ def run_one(run):
                     pyfftw.forget_wisdom()
                 run.note("reach_wisdom_" + cfg["wisdom"].replace("-", "_"))
             if cfg["lazy"]:
-                sim = run.add_sim(Sim(ch, draw_sim_config(ch, light=True)))
+                # FFTW_MEASURE / PATIENT plan by wall-clock timing (and may hit the planning time limit): which abTEM lines run is then
+                # not a function of the seed, so such configurations are scheduled without line-level interleaving
+                timed = cfg["fft"] == "fftw" and cfg["planning"] != "FFTW_ESTIMATE"
+                sim = run.add_sim(Sim(ch, draw_sim_config(ch, light=True, allow_threads=not timed)))
                 with sim:
                     obj = run_scene(sc, cfg, lazy=True)
                     if cfg["switch_fft_before_compute"]:
